@@ -17,7 +17,7 @@ def plan(tier, seed):
     from mc import universe as U
 
     return [
-        {'name': 'x32', 'target': TARGET, 'x64': False, 'cases': U.cases(tier, ('f32',), modulus=8)},
+        {'name': 'x32', 'target': TARGET, 'x64': False, 'cases': U.cases(tier, ('f32',), modulus=8)},   # pairs of symmetric-tagged specimens are always included
         {'name': 'x64', 'target': TARGET, 'x64': True, 'chunk': 3,
          'cases': U.cases(tier, ('f64',)) if tier == 'thorough' else [c for c in U.cases(tier, ('f64',)) if 'b' not in c]},
     ]
